@@ -66,6 +66,30 @@ Theorem C05_old_loop_refuted :
 Proof. vm_compute. split; reflexivity. Qed.
 Print Assumptions C05_old_loop_refuted.
 
+(* the OCI-layout destination (scheme/ocidir BlobPut): for EVERY stream, descriptor and store - a successful put has
+   stored exactly the stream under the digest that names it and reports its length, with a declared digest / size that
+   matched; a put that fails leaves the store as it was (nothing under the declared digest or any other); a declared
+   digest or size the stream does not match never succeeds; well-formed input always succeeds *)
+Theorem C05_layout_commit_exact : forall declared dsize stream store d size store',
+  layout_put declared dsize stream store = (LOk d size, store') ->
+  d = stream /\ size = zlen stream /\ store' = (stream, stream) :: store /\
+  (declared <> None -> declared = Some stream) /\ (0 < dsize -> dsize = zlen stream).
+Proof. exact layout_put_exact. Qed.
+Print Assumptions C05_layout_commit_exact.
+Theorem C05_layout_failure_commits_nothing : forall declared dsize stream store r store',
+  layout_put declared dsize stream store = (r, store') -> (forall d n, r <> LOk d n) -> store' = store.
+Proof. exact layout_put_fail. Qed.
+Print Assumptions C05_layout_failure_commits_nothing.
+Theorem C05_layout_declared_mismatch : forall g dsize stream store,
+  (g <> stream \/ (0 < dsize /\ dsize <> zlen stream)) -> forall d n, fst (layout_put (Some g) dsize stream store) <> LOk d n.
+Proof. exact layout_put_mismatch. Qed.
+Print Assumptions C05_layout_declared_mismatch.
+Theorem C05_layout_conforming_succeeds : forall declared dsize stream store,
+  (declared = None \/ declared = Some stream) -> (dsize <= 0 \/ dsize = zlen stream) ->
+  layout_put declared dsize stream store = (LOk stream (zlen stream), (stream, stream) :: store).
+Proof. exact layout_put_succeeds. Qed.
+Print Assumptions C05_layout_conforming_succeeds.
+
 (* non-vacuity: boundary lengths, partial acknowledgements and a fall-back all reach Done in the model *)
 Example C05_nonvacuous :
   let s := [1;2;3;4;5;6;7;8;9]%N in
